@@ -52,6 +52,25 @@ pub fn spec_verify(n: usize, msg: &[u8], sig: &[u8], pk: &[u8]) -> Option<bool> 
     Some(norm <= bound(n) as i128)
 }
 
+/// the specification's squared norm of (s1, s2) for a decodable signature (None if undecodable)
+pub fn spec_norm(n: usize, msg: &[u8], sig: &[u8], pk: &[u8]) -> Option<i64> {
+    if !ref_sig_accepts(n, sig) || !ref_pk_accepts(n, pk) {
+        return None;
+    }
+    let bits = bits_of(&pk[1..]);
+    let h: Vec<u64> = bits.chunks(14).map(|ch| ch.iter().fold(0u64, |a, &x| (a << 1) | x as u64)).collect();
+    let (c, _) = crate::c14::reference(&[&sig[1..41], msg].concat(), n);
+    let s2 = ref_decompress_cap(&sig[41..], n, None)?;
+    let mut norm: i64 = s2.iter().map(|&x| x * x).sum();
+    let s2q: Vec<u64> = s2.iter().map(|&x| x.rem_euclid(Q) as u64).collect();
+    let prod = crate::c11::schoolbook(&s2q, &h);
+    for i in 0..n {
+        let s1 = centred(c[i] as i64 - prod[i] as i64);
+        norm += s1 * s1;
+    }
+    Some(norm)
+}
+
 fn isqrt(x: i64) -> i64 {
     let mut r = (x as f64).sqrt() as i64;
     while r * r > x {
